@@ -669,3 +669,17 @@ Definition stale_state (S : Storable) (B : BucketImpl)
   let '(cr, _, _) := run S B reader_ops c_empty b0 in
   let '(_, b1, _) := run_txn S B (mkTxn false writer_ops TWrite) c_empty b0 in
   (cr, b1).
+
+(* ------------------------------------------------------------------------ *)
+(* 7. observations of the plain instance as instance-free data (examples)    *)
+Inductive vobs : Type :=
+| VGet (r : option (list N)) | VMany (l : list (list N)) | VEach (ok : bool) (l : list (N * list N))
+| VCount (n : nat) | VUnit.
+Definition view (x : obs plain_inst) : vobs :=
+  match x with
+  | ObsGet r => VGet r
+  | ObsMany l => VMany l
+  | ObsEach ok l => VEach ok (map (fun p : u64id * list N => (u64_val (fst p), snd p)) l)
+  | ObsCount n => VCount n
+  | ObsUnit => VUnit
+  end.
